@@ -217,6 +217,19 @@ func init() {
 		cl.members[i] = m
 		return "ok"
 	})
+	// c.kill <i>: abrupt stop: the RESP listener and every connection are closed and the membership layer stops
+	// without a leave message; the other members find out by probing
+	register("c.kill", func(a []string) string {
+		m := cl.members[atoi(a[0])]
+		if !m.alive {
+			return "ok"
+		}
+		iv := m.db.VerifInternals()
+		_ = iv.Server.VerifCloseServer()
+		_ = iv.RT.Discovery().VerifAbruptShutdown()
+		m.alive = false
+		return "ok"
+	})
 	// c.balanceall: one synchronous balancer pass on every live member
 	register("c.balanceall", func(a []string) string {
 		for _, m := range cl.members {
